@@ -95,7 +95,7 @@ def read_rwms(path, prefix, version='2.0', names=None, **kwargs):
             for suffix in suffixes:
                 if truncated_entry.endswith(suffix):
                     truncated_entry = truncated_entry[0:-len(suffix)]
-            idx = truncated_entry.index('r')
+            idx = truncated_entry.index('r', len(prefix))
             rep_names.append(truncated_entry[:idx] + '|' + truncated_entry[idx:])
     else:
         rep_names = names
@@ -320,7 +320,7 @@ def _extract_flowed_energy_density(path, prefix, dtr_read, xmin, spatial_extent,
         rep_names = []
         for entry in ls:
             truncated_entry = entry.split('.')[0]
-            idx = truncated_entry.index('r')
+            idx = truncated_entry.index('r', len(prefix))
             rep_names.append(truncated_entry[:idx] + '|' + truncated_entry[idx:])
 
     Ysum = []
@@ -1039,7 +1039,7 @@ def _read_flow_obs(path, prefix, c, dtr_cnfg=1, version="openQCD", obspos=0, sum
 
         if "names" not in kwargs:
             try:
-                idx = truncated_file.index('r')
+                idx = truncated_file.index('r', len(prefix))
             except Exception:
                 if "names" not in kwargs:
                     raise Exception("Automatic recognition of replicum failed, please enter the key word 'names'.")
